@@ -12,6 +12,8 @@ import (
 type c01Writer struct {
 	Sizes    []int `json:"sizes"`
 	OpenedBy int   `json:"opened_by"`
+	Via         string `json:"via,omitempty"`
+	EOFWithData bool   `json:"eof_with_data,omitempty"`
 }
 
 type c01Args struct {
@@ -81,7 +83,7 @@ func init() {
 	register(&Property{
 		ID:    "C01",
 		Level: "exploration",
-		Rule: "API histories on a real streams.Stdin: 1-6 writer goroutines (some opened late by a running writer, as createProcess does) each issue a PRNG sequence of Write calls of self-describing chunks [magic][writer][seq][len][payload(writer,seq)] with sizes from 0 to 3 MiB across the 1 MiB back-pressure limit and payload bytes over 0..255, then Close; one reader drains with Read (random buffer sizes) / WriteTo / ReadAll / Read then ReadAll (in a quarter of the histories the reader starts late, once the pipe is full and a writer is parked on the back-pressure limit) while a sampler polls Stats and the buffer state; hook yields perturb the check-then-act windows of Read/Write/ReadAll; plus byte strings pushed through a murex pipeline of byte-preserving builtins; " +
+		Rule: "API histories on a real streams.Stdin: 1-6 writer goroutines (some opened late by a running writer, as createProcess does) each issue a PRNG sequence of Write calls of self-describing chunks [magic][writer][seq][len][payload(writer,seq)] with sizes from 0 to 3 MiB across the 1 MiB back-pressure limit and payload bytes over 0..255, then Close (a fifth of the writers hand the same bytes over through ReadFrom instead, from a source that returns them piece by piece and, half of the time, the last piece together with io.EOF; ReadFrom's byte count is checked too); one reader drains with Read (random buffer sizes) / WriteTo / ReadAll / Read then ReadAll (in a quarter of the histories the reader starts late, once the pipe is full and a writer is parked on the back-pressure limit) while a sampler polls Stats and the buffer state; hook yields perturb the check-then-act windows of Read/Write/ReadAll; plus byte strings pushed through a murex pipeline of byte-preserving builtins; " +
 			"oracle (offline over the recorded history): every chunk whole, in per-writer sequence order, exactly once, payload intact; Write returns len(p), nil; the reader's EOF comes after every writer's Close call; counters monotone, read <= written, exact at quiescence; buffered < limit + largest chunk of every writer while the limit is in force; every history finishes; non-trivial = >= 2 writers or a write across 1 MiB; distinct by history description",
 		Assumptions: []string{"ForceClose / cancelled contexts legitimately drop data and are not generated", "ReadAll is a non-consuming snapshot: at most one terminal ReadAll per stream", "the framing parser runs in the worker (harness code) because histories move up to tens of MiB; its verdict records are checked in the controller"},
 		Technique:   "runtime monitoring: recorded producer/consumer history with unique self-describing chunks, offline exactly-once/order/conservation checker, hook-injected yields",
@@ -118,6 +120,20 @@ func init() {
 						// enough volume, in many writes, to fill the pipe while nobody reads
 						for k := 0; k < 30; k++ {
 							wr.Sizes = append(wr.Sizes, 50000+r.Intn(20000))
+						}
+					}
+					if !a.LateReader && r.Intn(5) == 0 {
+						// this writer hands its bytes over through ReadFrom, from a source that returns
+						// them in the same pieces and (half of the time) the last piece together with io.EOF.
+						// ReadFrom moves 1 KiB per Write call, so next to other writers its chunks stay
+						// within that size (one whole chunk per call); alone it may use any size
+						wr.Via, wr.EOFWithData = "readfrom", r.Intn(2) == 0
+						if nw > 1 {
+							for k := range wr.Sizes {
+								if wr.Sizes[k] > 1024 {
+									wr.Sizes[k] = 11 + r.Intn(1014)
+								}
+							}
 						}
 					}
 					a.Writers = append(a.Writers, wr)
@@ -198,6 +214,11 @@ func init() {
 				x.Nontrivial(key)
 			}
 			x.Count("histories "+a.Reader, 1)
+			for _, w := range a.Writers {
+				if w.Via == "readfrom" {
+					x.Count("writers_using_ReadFrom", 1)
+				}
+			}
 			x.Count("bytes_moved", int64(total))
 			x.Count("write_calls", int64(func() int { n := 0; for _, w := range a.Writers { n += len(w.Sizes) }; return n }()))
 			x.Count("read_calls", int64(o.ReadCalls))
